@@ -981,8 +981,34 @@ def expand_all(fw, cons):
     return out
 
 
+def directed_cascades(w, rng):
+    """two shapes every world gets (the random stream reaches them only now and then):
+    (a) a stage that lists a characteristic together with one of its own compartments -- nothing is repeated literally, but a compartment is counted twice;
+    (b) databook constituents, the first-listed of a multi-constituent stage heading a later stage too (its databook series must not have been summed into)."""
+    fw = w.P.framework
+    out = []
+    characs = [c for c in w.charac_names if not has_denominator(fw, c)]
+    cands = []
+    for ch in characs:
+        ex = expand_constituent(fw, ch)
+        if len(ex) >= 2 and len(set(ex)) == len(ex):
+            cands.append((ch, ex))
+    if cands:
+        ch, ex = rng.choice(cands)
+        own = rng.choice(ex)
+        stages = [("everyone", [ch]), ("twice", [ch, own] if rng.random() < 0.5 else [own, ch])]
+        out.append({"kind": "adhoc_dict", "arg": {nm: cons for nm, cons in stages}, "stages": stages, "directed": "charac+own-compartment"})
+    if len(w.data_labels) >= 2:
+        labs = rng.sample(w.data_labels, min(len(w.data_labels), rng.choice([2, 3])))
+        stages = [("s0", list(labs)), ("s1", [labs[0]])]
+        out.append({"kind": "adhoc_dict", "arg": {nm: cons for nm, cons in stages}, "stages": stages, "directed": "first-constituent-recurs"})
+    return out
+
+
 def check_cascades(ctx, w, n_adhoc):
-    for cas in gen_cascades(w, ctx.rng, n_adhoc):
+    for cas in directed_cascades(w, ctx.rng) + gen_cascades(w, ctx.rng, n_adhoc):
+        if cas.get("directed"):
+            ctx.count("cascade.directed." + cas["directed"])
         check_one_cascade(ctx, w, cas, ctx.rng.getrandbits(48))
 
 
@@ -1046,6 +1072,9 @@ def check_one_cascade(ctx, w, cas, cs_seed):
         # the unchanged code only tests nesting -- rejecting more of the specification-invalid cascades is not a disagreement
         if nested_m and nodup_m and not has_den:
             ctx.brk("correspondence", f"{w.name}: validate_cascade rejected a cascade the model's nesting test accepts: {cas['arg']!r}", case=replay)
+        return
+    if not nodup_m:
+        ctx.violation({"api": "validate_cascade", "defect": "duplicate_constituents_accepted"}, f"{w.name}: cascade {cas['arg']!r} accepted although a stage counts a compartment twice once its characteristics are expanded", replay)
         return
     if not nested_m:
         ctx.violation({"api": "validate_cascade", "defect": "accepts_non_nested"}, f"{w.name}: cascade {cas['arg']!r} accepted although a stage contains compartments its predecessor lacks", replay)
